@@ -491,6 +491,7 @@ class CompositeFrontend(ConstrainedFrontend):
             merged._unchecked_solvers.add(s)
 
         noncommon_solvers = [[s for s in cs._solver_list if id(s) not in common_ids] for cs in [self, *others]]
+        variable_free = []
 
         log.debug("... merging noncommon solvers")
         combined_noncommons = []
@@ -513,10 +514,18 @@ class CompositeFrontend(ConstrainedFrontend):
             if dependent:
                 merged_noncommon = merged_noncommon.combine(dependent)
 
-            merged._owned_solvers.add(merged_noncommon)
-            merged._store_child(merged_noncommon)
+            if merged_noncommon.variables:
+                merged._owned_solvers.add(merged_noncommon)
+                merged._store_child(merged_noncommon)
+            else:
+                # only variable-free constraints are left (unsatisfiable solvers merge into False): children are
+                # stored by variable, so no child can hold them
+                variable_free = list(merged_noncommon.constraints)
 
         merged.constraints = list(itertools.chain.from_iterable(a.constraints for a in merged._solver_list))
+        if variable_free:
+            merged._add(variable_free)
+            merged.constraints.extend(variable_free)
         return True, merged
 
     def split(self):
